@@ -382,6 +382,15 @@ fn job_scan(job: &Value, leaf_cache: &LeafCache) -> Value {
     };
     let cached = job.get("cached").and_then(|c| c.as_bool()).unwrap_or(false);
     let simple = job.get("simple").and_then(|c| c.as_bool()).unwrap_or(false);
+    // configurations built through the cache BEFORE the one under test (near-identical ones: the scanner under
+    // test must be the one ITS configuration compiles to, whatever was built before)
+    if let Some(pre) = job.get("prebuild").and_then(|p| p.as_array()) {
+        for pm in pre {
+            if let Ok(m) = catch_unwind(AssertUnwindSafe(|| modes_from_json(pm))) {
+                let _ = build(&m, true);
+            }
+        }
+    }
     let _ = verif::take_minimizer_log();
     let (scanner, class, msg) = if simple {
         // ScannerBuilder::add_patterns: one mode, token type = index of the pattern
